@@ -7,7 +7,7 @@
 // What this driver shows is a SAMPLE of the real interleavings, never all of them.
 //
 // case:   <out|err> <c0,c1,...> <dist> <mode> <seed> [ord] [same] [tsan]
-//   c_t   records logged by thread t (2..8 threads)          dist  z|s|m|l|x   payload length distribution
+//   c_t   records logged by thread t (2..32 threads)          dist  z|s|m|l|x   payload length distribution
 //   mode  n plain | y yield between bytes | d dwell (the thread inside waits a little for a second one to come in)
 //   ord   append the observed order to an OK observation
 //   same  ALL threads use ONE logger type and ONE severity, every record as a one-expression statement with
@@ -280,7 +280,7 @@ std::string run_case(const std::vector<std::string>& w0)
     std::vector<unsigned> counts;
     for (auto& c : vh::split_on(w[1], ',')) counts.push_back(static_cast<unsigned>(std::stoul(c)));
     unsigned n = counts.size();
-    if (n < 1 || n > 16) return "BADCASE";
+    if (n < 1 || n > 64) return "BADCASE";
     char dist = w[2][0], mode = w[3][0];
     unsigned seed = static_cast<unsigned>(std::stoul(w[4]));
 
